@@ -28,12 +28,13 @@ def interval_records(args):
     iv, ctx = args
     from . import gem
     M = gem.gemato.manifest
-    pre, post = {'alone': ('', ''), 'hex': ('A', 'F'), 'digits': ('1', '0'), 'xesc': ('x', '41')}[ctx]
+    pre, post = {'alone': ('', ''), 'hex': ('A', 'F'), 'digits': ('1', '0'), 'xesc': ('x', '41'),
+                 'tail': ('a', ''), 'head': ('', 'a')}[ctx]
     forms = set()
     failures = sepfail = crashes = 0
     first_bad = None
     for cp in range(iv['lo'], iv['hi'] + 1):
-        if cp == 47 and ctx == 'alone':
+        if cp == 47 and ctx in ('alone', 'head'):
             continue        # "/" on its own is an absolute path: outside the writer's domain (C09)
         path = pre + chr(cp) + post
         try:
@@ -55,6 +56,41 @@ def interval_records(args):
         except Exception as ex:  # noqa
             crashes += 1
             first_bad = first_bad or cp
+    # the same paths through a whole Manifest text (writer, line splitter, parser), where the path is the
+    # LAST field of its line (IGNORE) or the last but one (DATA without checksums)
+    if ctx in ('alone', 'tail', 'head'):
+        import io
+        cps = [cp for cp in range(iv['lo'], iv['hi'] + 1) if not (cp == 47 and ctx != 'tail')]
+        for cls, mk in (('IGNORE', lambda p: M.ManifestEntryIGNORE(p)), ('DATA', lambda p: M.ManifestEntryDATA(p, 0, {}))):
+            try:
+                m = M.ManifestFile()
+                m.entries = [mk(pre + chr(cp) + post) for cp in cps]
+                out = io.StringIO()
+                m.dump(out)
+                m2 = M.ManifestFile()
+                m2.load(io.StringIO(out.getvalue()))
+                got = [e.path for e in m2.entries]
+                want = [pre + chr(cp) + post for cp in cps]
+                if got != want:
+                    bad = [cps[k] for k in range(min(len(got), len(want))) if got[k] != want[k]]
+                    failures += max(len(bad), 1)
+                    first_bad = first_bad or (bad[0] if bad else cps[0])
+            except Exception as ex:  # noqa
+                # find the offender one by one
+                for cp in cps:
+                    try:
+                        m = M.ManifestFile()
+                        m.entries = [mk(pre + chr(cp) + post)]
+                        out = io.StringIO()
+                        m.dump(out)
+                        m2 = M.ManifestFile()
+                        m2.load(io.StringIO(out.getvalue()))
+                        if [e.path for e in m2.entries] != [pre + chr(cp) + post]:
+                            failures += 1
+                            first_bad = first_bad or cp
+                    except Exception:  # noqa
+                        crashes += 1
+                        first_bad = first_bad or cp
     return {'kind': 'interval', 'lo': iv['lo'], 'hi': iv['hi'], 'c': iv['c'], 'ctx': ctx,
             'forms': sorted(forms), 'failures': failures, 'sepfail': sepfail, 'crashes': crashes,
             'first_bad': first_bad or -1}
